@@ -158,7 +158,9 @@ func evalPureStmtBlock(vm *r.VM, stmtBlock *syntax.StmtBlock) (r.Element, error)
 	vm.BeginScope()
 	defer vm.EndScope()
 
-	var rtnValue r.Element
+	// a block without any executable statement (e.g. only nested definitions) yields 空,
+	// never a nil element
+	var rtnValue r.Element = value.NewNull()
 	var err error
 
 	for _, stmt := range stmtBlock.Children {
